@@ -462,6 +462,14 @@ func (e *Engine) loopInvs(fr *Frame, b *ssa.BasicBlock) []Clause {
 func (e *Engine) loopEnv(st *State, fr *Frame) *Env {
 	env := &Env{eng: e, st: st, pkg: e.pkgOf(fr.fn), vars: map[string]Val{}, oldSnap: st.unitOld, hasOld: true, where: "loop invariant in " + funcDisplayName(fr.fn)}
 	e.localsEnv(st, fr, env)
+	// mutable ghost variables of the unit (only of the unit's own frame: inlined callees do not see them)
+	if len(st.frames) > 0 && st.frames[0] == fr {
+		for k, v := range st.gvars {
+			if _, shadow := env.vars[k]; !shadow {
+				env.vars[k] = v
+			}
+		}
+	}
 	return env
 }
 
